@@ -13,6 +13,10 @@ from lib.sessions import C_EXT, C_SEARCH, CLIENT, DRAIN, RECV, SERVER
 from oracle import ber
 from props.session_common import SessionProp
 
+def U(x):
+    return [ord(ch) for ch in x]
+
+
 OID_X, OID_Y = b"1.2.3.4", b"1.2.3.5"
 REG_CTL, REG_FILTER, REG_AUTH, SEND_CUSTOM = 20, 21, 22, 23
 
@@ -353,6 +357,92 @@ class C19(SessionProp):
                         if isinstance(m[1][0], str) and m[1][0] == "bind-custom-auth" and taken.get(("a", 1024)) != {"CustomAuth": "auth", "CustomAuth2": "auth2"}.get(m[1][1]):
                             return f"session {i}: decoded custom credential class {m[1][1]} which this session did not register"
         return None
+
+    def extra_checks(self, tier, seed, ctx):
+        """Registration clause against the Coq registry model (Sess/Registry.v, theorems in Sess/RegistryProofs.v):
+        for every session of every custom history, the outcome of each register_* call and the class that decodes each
+        custom control / filter / credential received afterwards must be what the model's per-session registry says."""
+        from lib import model
+
+        if not ctx["build"].ok:
+            return []
+        KIND = {"c": 0, "f": 1, "a": 2}
+
+        def rid(key):
+            return list(key[1]) if key[0] == "c" else [key[1]]
+
+        jobs, meta = [], []
+        for c in ctx["cases"]:
+            if c.get("plain") or "_inter" not in c:
+                continue
+            for i, h in enumerate(c["hists"]):
+                ops = []
+                for j, call in enumerate(h["calls"]):
+                    if call[0] in (REG_CTL, REG_FILTER, REG_AUTH):
+                        name = reg_name(call)
+                        key = TYPE_ID[name]
+                        ops.append([KIND[key[0]], rid(key), U(name)])
+                    elif call[0] == RECV:
+                        qs = [[0, list(OID_X)], [0, list(OID_Y)], [0, list(msgs.OID_PAGED)], [1, [1024]], [2, [1024]]]
+                        jobs.append([150, list(ops), qs])
+                        meta.append((c, i, j, "recv"))
+                jobs.append([150, list(ops), []])
+                meta.append((c, i, None, "outcomes"))
+        if not jobs:
+            return []
+        ans = model.run_batch(jobs)
+        out = []
+        self.registry_checks = 0
+        for (c, i, j, what), a in zip(meta, ans):
+            h = c["hists"][i]
+            tr = c["_inter"][i]
+            bad = None
+            if what == "outcomes":
+                want = [bool(x) for x in a[0]]
+                got = [tr[k][0] == [1] for k, call in enumerate(h["calls"]) if call[0] in (REG_CTL, REG_FILTER, REG_AUTH)]
+                rej = [tr[k][0] for k, call in enumerate(h["calls"]) if call[0] in (REG_CTL, REG_FILTER, REG_AUTH)]
+                if want != got:
+                    bad = f"session {i}: register_* outcomes {rej} differ from the registry model {want}"
+                elif any((not w) and o != [6, 1] for w, o in zip(want, rej)):
+                    bad = f"session {i}: a refused registration did not raise ValueError: {rej}"
+            else:
+                o = tr[j][0]
+                if o[0] == 3:
+                    dec = {"X": a[1][0], "Y": a[1][1], "P": a[1][2]}
+
+                    def cls_of(x):
+                        return None if x == [] else "".join(chr(k) for k in x[0])
+
+                    for m in o[1]:
+                        for ctl in m[2]:
+                            if ctl[0] == "custom":
+                                which = CTL_NAMES[ctl[1]]
+                                oid_key = {"X": "X", "X2": "X", "Y": "Y", "P": "P"}[which]
+                                if cls_of(dec[oid_key]) != which:
+                                    bad = f"session {i}: control decoded by class {which}, the registry model says {cls_of(dec[oid_key])!r}"
+                            elif ctl[0] == 0:
+                                oid = bytes.fromhex(ctl[1]["x"]) if isinstance(ctl[1], dict) else bytes(ctl[1])
+                                for kname, koid in (("X", OID_X), ("Y", OID_Y)):
+                                    if oid == koid and cls_of(dec[kname]) is not None:
+                                        bad = f"session {i}: control {kname} decoded as unknown, the registry model says class {cls_of(dec[kname])!r}"
+                        if isinstance(m[1][0], str) and m[1][0] == "search-custom-filter":
+                            want_cls = {"CustomFilter": "filter", "CustomFilter2": "filter2"}.get(m[1][1])
+                            if cls_of(a[1][3]) != want_cls:
+                                bad = f"session {i}: filter decoded by {m[1][1]}, the registry model says {cls_of(a[1][3])!r}"
+                        if isinstance(m[1][0], str) and m[1][0] == "bind-custom-auth":
+                            want_cls = {"CustomAuth": "auth", "CustomAuth2": "auth2"}.get(m[1][1])
+                            if cls_of(a[1][4]) != want_cls:
+                                bad = f"session {i}: credential decoded by {m[1][1]}, the registry model says {cls_of(a[1][4])!r}"
+            if bad:
+                out.append(({k: v for k, v in c.items() if k != "_inter"}, bad))
+                if len(out) >= 3:
+                    break
+            else:
+                self.registry_checks += 1
+        return out
+
+    def extra_evidence(self, ctx):
+        return {"registry_model_comparisons": getattr(self, "registry_checks", 0)}
 
     def classify(self, c):
         return ("plain" if c["plain"] else "custom") + "-" + "".join("cs"[h["role"]] for h in c["hists"])
